@@ -246,9 +246,26 @@ func runHsCase(c *hsCase) hsResult {
 		if errors.Is(r.err, plugin.ErrGRPCBrokerMuxNotSupported) {
 			sent = "mux"
 		}
-		impl = fmt.Sprintf("err sentinel=%s killed=%s", sent, b01(kills > 0))
+		// a failed Start stays failed: a second Start on the same client must not succeed
+		again := "err"
+		{
+			var a2 net.Addr
+			err2, hung2, pp2 := withTimeout(hsStartTimeout+5*time.Second, func() error { var e error; a2, e = client.Start(); return e })
+			switch {
+			case hung2:
+				again = "hang"
+			case pp2 != nil:
+				again = "panic"
+			case err2 == nil:
+				again = "ok"
+				_ = a2
+			}
+		}
+		impl = fmt.Sprintf("err sentinel=%s killed=%s again=%s", sent, b01(kills > 0), again)
 		if kills == 0 {
 			pred = "FAIL:start-error-without-kill"
+		} else if again != "err" {
+			pred = "FAIL:second-start-after-failed-start-" + again
 		}
 	default:
 		if r.addr == nil || (reflect.ValueOf(r.addr).Kind() == reflect.Ptr && reflect.ValueOf(r.addr).IsNil()) {
